@@ -246,12 +246,14 @@ def build(spec, alias=False):
         t1 = _tx([tuple(b) for b in spec["exons"]], spec["strand"], spec.get("cds"), 0, par, qualifiers={"k": ["tx-own"], "t": ["1"], "transcript_name": ["txalias"], "protein_id": ["p0"]})
         t2 = _tx([tuple(spec["exons"][0])], spec["strand"], None, 0, par, qualifiers={"k": ["tx2-own"]})
         return GeneInterval([t1, t2], gene_id="g", gene_symbol="G", gene_type=Biotype["protein_coding"], locus_tag="LT1", sequence_name="chrV",
-                            qualifiers={"k": ["gene-own"], "g": ["1"], "gene_name": ["alias"], "locus_tag": ["LT0"]}, parent_or_seq_chunk_parent=par)
+                            qualifiers={"k": ["gene-own"], "g": ["1"], "gene_name": ["alias"], "locus_tag": ["LT0"], "protein_id": ["gene-level-pid"],
+                                        "transcript_id": ["gene-level-tid"], "product": ["gene-level-product"]}, parent_or_seq_chunk_parent=par)
     if k == "fcoll":
         f1 = lib.mk_feat([tuple(b) for b in spec["exons"]], spec["strand"], par, sequence_name="chrV", feature_name="f1", feature_types=["a"], qualifiers={"k": ["f-own"]})
         f2 = lib.mk_feat([tuple(spec["exons"][0])], spec["strand"], par, sequence_name="chrV", feature_name="f2", feature_types=["b"])
         return FeatureIntervalCollection([f1, f2], feature_collection_name="fc", feature_collection_id="fcid", sequence_name="chrV",
-                                         qualifiers={"k": ["fc-own"], "feature_collection_name": ["fcalias"]}, parent_or_seq_chunk_parent=par)
+                                         qualifiers={"k": ["fc-own"], "feature_collection_name": ["fcalias"], "feature_id": ["fc-level-fid"], "feature_name": ["fc-level-name"]},
+                                         parent_or_seq_chunk_parent=par)
     if k == "variant":
         return VariantInterval(start=spec["s"], end=spec["e"], sequence=spec["alt"], variant_type="x", variant_name="v", qualifiers={"k": ["v"]}, parent_or_seq_chunk_parent=par)
     if k == "vcoll":
@@ -280,6 +282,8 @@ def catalogue(tier):
     for s in "+-":
         out.append(dict(kind="loc", blocks=[[2, 9]], strand=s))
         out.append(dict(kind="loc", blocks=[[1, 4], [6, 9], [9, 12]], strand=s))
+        out.append(dict(kind="loc", blocks=[[1, 6], [4, 9]], strand=s))  # genuinely overlapping blocks
+        out.append(dict(kind="loc", blocks=[[0, 10], [2, 5], [10, 12]], strand=s))  # nested + adjacent
         out.append(dict(kind="nested", strand=s))
         out.append(dict(kind="seq", blocks=[[1, 4], [6, 9]], strand=s))
         out.append(dict(kind="feat", blocks=[[1, 4], [6, 9]], strand=s))
@@ -360,6 +364,9 @@ def menu_ops(obj):
         partner = lib.mk_loc(((1, 3),) if short else ((3, 7),), "+", obj.parent.strip_location_info() if obj.parent else None)
         ops["intersection(P)"] = lambda o: o.intersection(partner, match_strand=False)
         ops["union(Psame)"] = lambda o: o.union(partner.reset_strand(o.strand))
+        cpartner = lib.mk_loc(((0, 2), (3, 4)) if short else ((0, 2), (5, 8)), lib.loc_strand(obj), obj.parent.strip_location_info() if obj.parent else None)
+        ops["union(Pcompound)"] = lambda o: o.union(cpartner)
+        ops["reset_strand(-).blocks"] = lambda o: [(b.start, b.end, b.strand) for b in o.reset_strand(Strand.MINUS).blocks]
         ops["minus(P)"] = lambda o: o.minus(partner, match_strand=False)
         ops["has_overlap(P)"] = lambda o: o.has_overlap(partner)
         ops["location_relative_to"] = lambda o: partner.location_relative_to(o)
@@ -608,7 +615,8 @@ def immut_ops(obj):
         ops.append(("get_merged", lambda o: o.get_merged_transcript() if isinstance(o, GeneInterval) else o.get_merged_feature(), []))
         ops.append(("liftover_to_chunk", lambda o: o.liftover_to_parent_or_seq_chunk_parent(lib.chunk_parent(g, 0, 20)), []))
     if isinstance(obj, (TranscriptInterval, FeatureInterval)):
-        PQ = {"k": {"from-parent"}, "n": {"1"}}
+        PQ = {"k": {"from-parent"}, "n": {"1"}, "transcript_id": {"pq-tid"}, "protein_id": {"pq-pid"}, "feature_id": {"pq-fid"},
+              "feature_name": {"pq-name"}, "transcript_name": {"pq-tname"}, "product": {"pq-product"}}
         ops.append(("to_gff(PQ)", lambda o, pq=PQ: list(o.to_gff(parent="p", parent_qualifiers=pq)), [PQ]))
         ops.append(("export_qualifiers(PQ)", lambda o, pq=PQ: o.export_qualifiers(pq), [PQ]))
         ops.append(("to_bed12", lambda o: o.to_bed12(), []))
